@@ -96,7 +96,13 @@ impl Compile for NumberLoop {
 
         result.append(&mut val_start);
 
-        result.push(instruction!(store_fast loop_identity));
+        if self.name_is_collision {
+            // the counter is a variable that already exists: write to that variable, wherever it lives, instead of
+            // creating a same-named local in the innermost frame (which would shadow it until that frame is popped)
+            result.push(instruction!(store loop_identity));
+        } else {
+            result.push(instruction!(store_fast loop_identity));
+        }
 
         result.append(&mut val_end);
 
